@@ -322,7 +322,9 @@ class LongHistory(Part):
 
     def cases(self):
         n = 3000 if self.tier == "quick" else 20000
-        return [{"n": n, "kind": k} for k in ("text", "mixed")]
+        # ... and many secrets of one and the same length (a replacement derived from the running number and
+        # the secret's length must still be unique): every length around the pseudonym's own
+        return [{"n": n, "kind": k} for k in ("text", "mixed")] + [{"n": 250, "kind": "length", "L": L} for L in (9, 12, 15, 16, 17, 18, 19, 20, 24, 32, 33, 48, 64)]
 
     def run(self, case):
         from netconan.anonymize_files import FileAnonymizer
@@ -331,7 +333,9 @@ class LongHistory(Part):
         n = case["n"]
         secs = []
         for i in range(n):
-            if case["kind"] == "text" or i % 4 == 0:
+            if case["kind"] == "length":
+                secs.append(("Vpn_Key.%0" + str(case["L"] - 8) + "d") % i)
+            elif case["kind"] == "text" or i % 4 == 0:
                 secs.append("Secret-%d-%s" % (i, "xY"[i % 2] * (i % 7)))
             elif i % 4 == 1:
                 secs.append("%d" % (100000 + i * 7919))
@@ -369,7 +373,7 @@ class LongHistory(Part):
             if a == s:
                 res.violation("secret-not-replaced|long-history", "secret #%d %r" % (i, s), case)
                 break
-        res.nt((case["kind"], n))
+        res.nt((case["kind"], n, case.get("L")))
         res.out(len(set(r1)))
         if len(set(r1)) != n:
             res.violation("different-secrets-same-replacement|long-history",
